@@ -78,7 +78,7 @@ def atoms_of(v) -> list:
 
     def go(x):
         if isinstance(x, tuple):
-            if x and x[0] in ("var", "read", "slice", "len", "const", "opaque"):
+            if x and x[0] in ("var", "read", "slice", "len", "const", "opaque", "phi", "copy"):
                 out.append(x)
             for y in x:
                 go(y)
@@ -112,6 +112,10 @@ def show(v) -> str:
         return f"len({show(v[1])})"
     if v[0] == "const":
         return repr(v[1])
+    if v[0] == "phi":
+        return f"{v[1]}@merge"
+    if v[0] == "copy":
+        return f"copy({show(v[1])})"
     return f"<{v[1]}>"
 
 
@@ -263,6 +267,93 @@ class Avail:
                     return here
         # the expression is available: its value now is its value at the definitions
         return self._value(nid, exprs[0], depth + 1)
+
+    # ---------------------------------------------------------------- values over single-assignment names
+    def ssa(self, node, e: ast.expr, depth: int = 0):
+        """The value of ``e`` at ``node`` over *single-assignment names* instead of current variables: a local with one
+        reaching definition is replaced by what that definition computed (evaluated where it stands; `x += e` is the value
+        before plus e), a local with several reaching definitions - a merge, typically the loop head - is the atom
+        ('phi', name, <its reaching definitions>).  Such values are facts that do not age: two of them are equal exactly when
+        the run-time values are, as long as no merge point they mention is passed again in between (one loop iteration).
+        A cursor that is advanced step by step (`pos += 1` ... `pos += length`) thus reads `phi(pos) + 2 + buf[phi(pos) + 1]`.
+        Reads of an object that is changed in place anywhere in the function are opaque."""
+        nid = node if isinstance(node, int) else node.id
+        return self._ssa(nid, e, depth)
+
+    def ssa_var(self, node, name: str, depth: int = 0):
+        nid = node if isinstance(node, int) else node.id
+        return self._ssa_name(nid, name, depth)
+
+    def ssa_after(self, node, name: str):
+        """the value of ``name`` right after ``node`` executed normally"""
+        n = node if not isinstance(node, int) else self.cfg.nodes[node]
+        d = self.du.defs.get(n.id, {}).get(name)
+        if d is None:
+            return self._ssa_name(n.id, name, 0)
+        return self._ssa_def(n.id, name, d, 0)
+
+    def mutated_in_place(self, name: str) -> bool:
+        return any(i not in self.du.defs or name not in self.du.defs[i] for i in self.kills.get(name, set()))
+
+    def _ssa_def(self, dn: int, name: str, d, depth: int):
+        if d.kind == "assign" and d.path == () and d.value is not None:
+            return self._ssa(dn, d.value, depth + 1)
+        if d.kind == "aug" and isinstance(d.extra, (ast.Add, ast.Sub)):
+            return add(self._ssa_name(dn, name, depth + 1), self._ssa(dn, d.value, depth + 1), 1 if isinstance(d.extra, ast.Add) else -1)
+        return atom(("phi", name, (dn,)))
+
+    def _ssa_name(self, nid: int, name: str, depth: int):
+        if name not in self.du.local_names:
+            return atom(("var", name))
+        rd = self.du.reaching(nid, name)
+        if depth >= 4 * MAX_DEPTH or len(rd) != 1:
+            return atom(("phi", name, tuple(sorted(dn for dn, _d in rd))))
+        dn, d = rd[0]
+        if d.kind == "param":
+            return atom(("var", name))
+        return self._ssa_def(dn, name, d, depth)
+
+    def _ssa(self, nid: int, e: ast.expr, depth: int):
+        V = lambda x: self._ssa(nid, x, depth)  # noqa: E731
+        if isinstance(e, ast.Constant):
+            if isinstance(e.value, int) and not isinstance(e.value, bool):
+                return const(e.value)
+            return atom(("const", e.value if isinstance(e.value, (str, bytes, type(None), bool, float)) else repr(e.value)))
+        if isinstance(e, ast.Name):
+            return self._ssa_name(nid, e.id, depth)
+        if isinstance(e, ast.BinOp):
+            if isinstance(e.op, (ast.Add, ast.Sub)):
+                return add(V(e.left), V(e.right), 1 if isinstance(e.op, ast.Add) else -1)
+            if isinstance(e.op, ast.Mult):
+                a, b = V(e.left), V(e.right)
+                if as_const(a) is not None:
+                    return scale(b, as_const(a))
+                if as_const(b) is not None:
+                    return scale(a, as_const(b))
+            return self._opaque(nid, e)
+        if isinstance(e, ast.UnaryOp) and isinstance(e.op, ast.USub):
+            return scale(V(e.operand), -1)
+        if isinstance(e, ast.Subscript):
+            if any(isinstance(x, ast.Name) and self.mutated_in_place(x.id) for x in ast.walk(e.value)):
+                return self._opaque(nid, e)
+            base = V(e.value)
+            if isinstance(e.slice, ast.Slice):
+                if e.slice.step is not None:
+                    return self._opaque(nid, e)
+                lo = V(e.slice.lower) if e.slice.lower is not None else None
+                hi = V(e.slice.upper) if e.slice.upper is not None else None
+                return atom(_slice(base, lo, hi))
+            return atom(("read", base, V(e.slice)))
+        if isinstance(e, ast.Call) and isinstance(e.func, ast.Name) and e.func.id == "len" and len(e.args) == 1 and not e.keywords:
+            if any(isinstance(x, ast.Name) and self.mutated_in_place(x.id) for x in ast.walk(e.args[0])):
+                return self._opaque(nid, e)
+            return atom(("len", V(e.args[0])))
+        if isinstance(e, ast.Call) and not e.keywords and len(e.args) == 1 and (
+                (isinstance(e.func, ast.Name) and e.func.id in ("bytes", "bytearray")) or False):
+            return atom(("copy", V(e.args[0]), nid))
+        if isinstance(e, ast.Call) and isinstance(e.func, ast.Attribute) and e.func.attr == "copy" and not e.args and not e.keywords:
+            return atom(("copy", V(e.func.value), nid))
+        return self._opaque(nid, e)
 
     # ---------------------------------------------------------------- the value a definition gives
     def assigned(self, node) -> dict[str, tuple]:
